@@ -286,3 +286,82 @@ def sticky_flag(fl, set_edges, ok_blocks):
             return F, 'latch %s' % (b.local_name(F) or '_%d' % F)
         why = 'the success return is not guarded by a test that %s is still at its initial value' % (b.local_name(F) or '_%d' % F)
     return None, why
+
+
+PATH_IDENTITY = ('std::ffi::OsStr::to_owned', 'std::path::Path::as_os_str', 'std::path::PathBuf::from', 'std::convert::From::from',
+                 'std::convert::Into::into', 'std::ops::Deref::deref', 'std::convert::AsRef::as_ref', 'std::borrow::ToOwned::to_owned',
+                 'std::clone::Clone::clone', 'std::path::Path::to_path_buf', 'std::path::PathBuf::as_path', 'std::ffi::OsString::from',
+                 'std::path::PathBuf::into_os_string', 'std::borrow::Borrow::borrow', 'std::ffi::OsString::as_os_str')
+PATH_PUSHERS = ('std::ffi::OsString::push',)
+
+
+def path_shape(F, fl, op, depth=0):
+    """(bases, pushes) describing how a path-like operand is built: bases = {('param', i) | ('other', what)} it starts
+    from, pushes = {str const | ('param', i) | ('other', what)} appended to its name with OsString::push.  Crate-local
+    helpers (e.g. a `sibling(path, suffix)` extracted by a refactor) are evaluated from their own body with the call's
+    arguments substituted, so helper extraction does not change the shape."""
+    bases, pushes = set(), set()
+    for o in fl.origins(op, mut_calls=True):
+        if o.kind == 'param':
+            bases.add(('param', o.key) if not o.path else ('other', 'field of param %s' % o.key))
+        elif o.kind == 'const':
+            bases.add(('const', o.key))
+        elif o.kind == 'comb':
+            continue
+        elif o.kind == 'mutcall' and o.key in PATH_PUSHERS:
+            t = fl.body.blocks[o.bb]['term']
+            for a in fl.origins(t['args'][1]):
+                if a.kind == 'const' and isinstance(a.key, str):
+                    pushes.add(a.key)
+                elif a.kind == 'param' and not a.path:
+                    pushes.add(('param', a.key))
+                elif a.kind == 'comb':
+                    continue
+                else:
+                    pushes.add(('other', '%s %s' % (a.kind, a.key)))
+        elif o.kind == 'mutcall':
+            pushes.add(('other', 'mutated by %s' % o.key))
+        elif o.kind == 'call' and o.key in PATH_IDENTITY:
+            t = fl.body.blocks[o.bb]['term']
+            b2, p2 = path_shape(F, fl, t['args'][0], depth)
+            bases |= b2
+            pushes |= p2
+        elif o.kind == 'call' and F.body(o.key) is not None and depth < 3:
+            cb = F.body(o.key)
+            cfl = flow_of(cb)
+            t = fl.body.blocks[o.bb]['term']
+            b2, p2 = path_shape(F, cfl, 0, depth + 1)
+            for x in b2:
+                if x[0] == 'param' and x[1] - 1 < len(t['args']):
+                    b3, p3 = path_shape(F, fl, t['args'][x[1] - 1], depth + 1)
+                    bases |= b3
+                    pushes |= p3
+                else:
+                    bases.add(x)
+            for x in p2:
+                if isinstance(x, tuple) and x[0] == 'param' and x[1] - 1 < len(t['args']):
+                    for a in fl.origins(t['args'][x[1] - 1]):
+                        if a.kind == 'const' and isinstance(a.key, str):
+                            pushes.add(a.key)
+                        elif a.kind != 'comb':
+                            pushes.add(('other', '%s %s' % (a.kind, a.key)))
+                else:
+                    pushes.add(x)
+        else:
+            bases.add(('other', '%s %s' % (o.kind, o.key)))
+    # with mut_calls the pushed operand also shows up among the origins of the mutated value: it is a suffix, not a base
+    bases -= {('const', x) for x in pushes if isinstance(x, str)}
+    pushed_params = {x for x in pushes if isinstance(x, tuple) and x[0] == 'param'}
+    if pushed_params and len(bases) > 1:
+        bases -= pushed_params
+    return bases, pushes
+
+
+def is_param_plus_suffix(F, fl, op, param, suffix):
+    b, p = path_shape(F, fl, op)
+    return b == {('param', param)} and p == {suffix}
+
+
+def is_plain_param(F, fl, op, param):
+    b, p = path_shape(F, fl, op)
+    return b == {('param', param)} and not p
